@@ -1,0 +1,81 @@
+//go:build verif
+
+// Interface contracts for package interfaces, read by /verif/kvc (contract-based deductive verification).
+// Ghost history counters record which operations a client of the interface has invoked and with which
+// byte strings (bstr = abstract content of a byte slice); they are pure call histories, no implementation
+// state is assumed.  This file is comment-only and excluded from every build without the `verif` tag.
+package interfaces
+
+// ---- StorageManager as seen by the engine facade
+//@ ghost field (StorageManager) writes int
+//@ ghost field (StorageManager) reads int
+//@ ghost field (StorageManager) lastKey bstr
+//@ ghost field (StorageManager) lastVal bstr
+//@ ghost field (StorageManager) lastValNil bool
+//@ func StorageManager.Put
+//@   havocs self.writes, self.lastKey, self.lastVal, self.lastValNil
+//@   ensures self.writes == old(self.writes) + 1 && self.lastKey == bstr(key) && self.lastVal == bstr(value) && self.lastValNil == (value == nil)
+//@ func StorageManager.Delete
+//@   havocs self.writes, self.lastKey
+//@   ensures self.writes == old(self.writes) + 1 && self.lastKey == bstr(key)
+//@ func StorageManager.ApplyBatch
+//@   havocs self.writes
+//@   ensures self.writes == old(self.writes) + 1
+//@ func StorageManager.Get
+//@   havocs self.reads, self.lastKey
+//@   ensures self.reads == old(self.reads) + 1 && self.lastKey == bstr(key)
+
+// ---- Engine as seen by the network service
+//@ ghost field (Engine) puts int
+//@ ghost field (Engine) dels int
+//@ ghost field (Engine) gets int
+//@ ghost field (Engine) begins int
+//@ ghost field (Engine) lastKey bstr
+//@ ghost field (Engine) lastVal bstr
+//@ ghost field (Engine) lastBeginRO bool
+//@ func Engine.Put
+//@   havocs self.puts, self.lastKey, self.lastVal
+//@   ensures self.puts == old(self.puts) + 1 && self.lastKey == bstr(key) && self.lastVal == bstr(value)
+//@ func Engine.Delete
+//@   havocs self.dels, self.lastKey
+//@   ensures self.dels == old(self.dels) + 1 && self.lastKey == bstr(key)
+//@ func Engine.Get
+//@   havocs self.gets, self.lastKey
+//@   ensures self.gets == old(self.gets) + 1 && self.lastKey == bstr(key)
+//@ func Engine.BeginTransaction
+//@   havocs self.begins, self.lastBeginRO
+//@   ensures self.begins == old(self.begins) + 1 && self.lastBeginRO == readOnly
+//@   ensures err == nil ==> result0 != nil && fresh(dyn(result0)) && result0.puts == 0 && result0.dels == 0 && result0.commits == 0 && result0.rollbacks == 0 && !result0.finished
+//@   ensures err != nil ==> result0 == nil
+
+// ---- Transaction as seen by the network service
+//@ ghost field (Transaction) puts int
+//@ ghost field (Transaction) dels int
+//@ ghost field (Transaction) gets int
+//@ ghost field (Transaction) commits int
+//@ ghost field (Transaction) rollbacks int
+//@ ghost field (Transaction) finished bool
+//@ ghost field (Transaction) ro bool
+//@ ghost field (Transaction) lastKey bstr
+//@ ghost field (Transaction) lastVal bstr
+//@ func Transaction.Put
+//@   havocs self.puts, self.lastKey, self.lastVal
+//@   ensures self.puts == old(self.puts) + 1 && self.lastKey == bstr(key) && self.lastVal == bstr(value)
+//@ func Transaction.Delete
+//@   havocs self.dels, self.lastKey
+//@   ensures self.dels == old(self.dels) + 1 && self.lastKey == bstr(key)
+//@ func Transaction.Get
+//@   havocs self.gets, self.lastKey
+//@   ensures self.gets == old(self.gets) + 1 && self.lastKey == bstr(key)
+//@ func Transaction.Commit
+//@   havocs self.commits, self.finished
+//@   ensures self.commits == old(self.commits) + 1 && self.finished
+//@ func Transaction.Rollback
+//@   havocs self.rollbacks, self.finished
+//@   ensures self.rollbacks == old(self.rollbacks) + 1 && self.finished
+//@ func Transaction.IsReadOnly
+//@   ensures result == self.ro
+//@ func Transaction.NewIterator
+//@   ensures result != nil
+//@ func Transaction.NewRangeIterator
+//@   ensures result != nil
